@@ -71,7 +71,7 @@ CLAIMED = {
         "note": "Partial: clauses O1-O3.",
     },
     "C03": {
-        "technique": "frame-depth dataflow on the MIR of every lowering method (push/pop of stack_slots told apart by the Vec's element type), drain check of every popped frame, 'visit after new_block must own a frame' (typestate of conditionally/repeatedly executed regions), who-may-call for emit_return, dominance chains in assign and RotoFunc::invoke; may-dataflow of 'limbo tokens' (values outside the frames: unregistered temporaries, unregistered call arguments, popped frames) up to every descent into a sub-expression, with helper and per-element-closure summaries",
+        "technique": "frame-depth dataflow on the MIR of every lowering method (push/pop of stack_slots told apart by the Vec's element type), drain check of every popped frame, 'visit after new_block must own a frame' (typestate of conditionally/repeatedly executed regions), who-may-call for emit_return, dominance chains in assign and RotoFunc::invoke; may-dataflow of 'limbo tokens' (values outside the frames: unregistered temporaries, unregistered call arguments, popped frames) up to every descent into a sub-expression, with helper and per-element-closure summaries; single-exit check of the component loops of generated clone/drop/eq bodies; kind-before-size dominance in lower_type (registered types not elided)",
         "level": "Decides the MIR lowerer's frame bookkeeping structurally on all CFG paths of all lowering methods - the mechanism that makes generated drops balance; the clone/drop balance of a particular script's generated code is not decided.",
         "note": "Partial: clauses F1-F6.",
     },
@@ -96,7 +96,7 @@ CLAIMED = {
         "note": "Partial: clauses L1-L3.",
     },
     "C05": {
-        "technique": "cross-table agreement with rustc as oracle: ADT repr/variant-order facts, rustc layout_of answers exported per Rust type vs the crate's own Primitive::layout table, associated-type table (AsParam/Transformed) vs the pool's reference-type table, statement-order checks of hidden-parameter assembly, fn-pointer type strings of the ABI adapters",
+        "technique": "cross-table agreement with rustc as oracle: ADT repr/variant-order facts, rustc layout_of answers exported per Rust type vs the crate's own Primitive::layout table, associated-type table (AsParam/Transformed) vs the pool's reference-type table, statement-order checks of hidden-parameter assembly, fn-pointer type strings of the ABI adapters; per-IrType-variant forward dataflow of the AbiParam extension (uext/sext) over every parameter pushed onto a signature declared with Linkage::Import, through the helpers that build it",
         "level": "Decides agreement of every table both sides of the boundary derive layout, tags and passing convention from (all mirror enums, all 16 primitive rows, all 28 Value impls, all producers/consumers of the hidden parameters); equality of arbitrary values across the ABI of generated code is not decided.",
         "note": "Partial: clauses A1-A4; context field offsets (proc-macro template) not decided.",
     },
